@@ -56,3 +56,28 @@ pub open spec fn params_of(vp: HistoryVerificationParams) -> HistoryParams {
 }
 // typed view (drives type inference for `let mut results = Vec::new()`)
 pub open spec fn rseq(v: Vec<VerifyResult>) -> Seq<VerifyResult> { v@ }
+
+// L2 (C08, lookup m < n vs complete history n): an accepted COMPLETE history with latest version n shows the stale leaf of EVERY
+// version m < n present (it is part of the accepted update proof for m+1) - which is exactly the leaf an accepted lookup proof for m shows absent.
+// alarm: C08, C07
+pub proof fn lemma_l2<TC: Configuration>(pk: Seq<u8>, root: Digest, label: Seq<u8>, proof: &HistoryProof, vp: HistoryVerificationParams, m: u64)
+    requires
+        proof.update_proofs@.len() >= 1,
+        consecutive(proof, proof.update_proofs@.len() as int),
+        ver(proof, proof.update_proofs@.len() - 1) == 1,
+        forall|k: int| 0 <= k < proof.update_proofs@.len() ==> update_ok::<TC>(pk, root, label, #[trigger] proof.update_proofs@[k], vp),
+        1 <= m < ver(proof, 0),
+    ensures
+        exists|k: int| 0 <= k < proof.update_proofs@.len() && (#[trigger] proof.update_proofs@[k]).version == m + 1
+            && proof.update_proofs@[k].previous_version_proof is Some && proof.update_proofs@[k].previous_version_vrf_proof is Some
+            && exist_ok::<TC>(pk, root, label, VersionFreshness::Stale, m, proof.update_proofs@[k].previous_version_vrf_proof->Some_0@, proof.update_proofs@[k].previous_version_proof->Some_0)
+{
+    let n = proof.update_proofs@.len() as int;
+    lemma_consecutive(proof, n, n - 1);
+    // versions are ver(0), ver(0) - 1, .., 1: the update for version m + 1 sits at index ver(0) - (m + 1)
+    let k = ver(proof, 0) - (m + 1);
+    assert(0 <= k < n);
+    lemma_consecutive(proof, n, k);
+    assert(proof.update_proofs@[k].version == m + 1);
+    assert(update_ok::<TC>(pk, root, label, proof.update_proofs@[k], vp));
+}
